@@ -225,7 +225,7 @@ def shard_main(ctx):
         ctx.extra["enumeration_complete_smallest"] = bool(complete)
         if ctx.failures:
             return
-    ctx.explore("schedules", cases(), run_case, ctx.n(250, 6000))
+    ctx.explore("schedules", cases(), run_case, ctx.n(600, 8000))
 
 
 def replay(case, ctx):
